@@ -45,9 +45,17 @@ pub fn random_seed_hex(rng: &mut Rng) -> String {
 
 /// Settings that shape the process around the workers and must not change what any client gets:
 /// a seeded combination for runs that boot the repository's own `main()`.
+/// Half of the configuration files are laid out differently from the README (see `ServerSpec.layout`).
+pub fn file_layout(rng: &mut Rng, s: &mut ServerSpec) {
+    if s.source == ConfigSource::File && rng.chance(1, 2) {
+        s.layout = rng.next_u64() | 1;
+    }
+}
+
 pub fn process_settings(rng: &mut Rng, s: &mut ServerSpec) {
     s.mode = Mode::F;
     s.source = if rng.chance(1, 2) { ConfigSource::File } else { ConfigSource::Env };
+    file_layout(rng, s);
     if rng.chance(1, 2) {
         s.client_stats = Some((*rng.pick(&["on", "yes"])).into());
         s.persist_dir = Some("/tmp".into());
